@@ -3,7 +3,7 @@ completion order, n_jobs and progress setting.  Model/Group.v (group2d_axis0 ove
 import numpy as np
 from harness import grouplib as gl
 from harness.core import exc_kind
-from harness.grouplib import COQ_HEADER, COQ_RUNNER, COQ_TYPES, SHARD
+from harness.grouplib import COQ_HEADER, COQ_RUNNER, COQ_TYPES, SHARD, COQ_STREAMS
 
 PROP = 'C11'
 PROPS_FILE = 'Props/C11.v'
@@ -16,8 +16,17 @@ RULE = ('real compute_features_2d(axis=0) / BycycleGroup.fit on 1-7 pairwise dif
         'both; the worker is wrapped (before the fork) to sleep so that earlier rows finish later (reverse / first-slow / '
         'zigzag schedules) and to log its completion; every returned table is matched against the tables of all '
         '(option set, row) pairs computed directly, giving a placement vector compared with the model, which is evaluated '
-        'on the OBSERVED completion order; non-trivial = >= 3 rows and a perturbed schedule or a per-row list')
-ASSUMPTIONS = ['the multiprocessing runtime is exercised only under the injected schedules; the theorem covers all permutations '
+        'on the OBSERVED completion order; option dictionaries (and their nested dictionaries) are passed with a shuffled '
+        'insertion order; through the object, about 60 % of the cases (and a dedicated block) first fit the SAME '
+        'BycycleGroup on 1-2 decoy arrays of another shape (more / fewer rows, 3-D arrays along any axis) with other '
+        'signals, and after the judged fit len(bg), bg.models, bg[i], iteration and df_features must have exactly the '
+        'judged array\'s rows, every model holding the table (by value) and the signal of its own row; the history is '
+        'evaluated by the model of the object (second Coq stream); '
+        'non-trivial = >= 3 rows and a perturbed schedule or a per-row list')
+ASSUMPTIONS = ['the statement about BycycleGroup.fit is applied to every call of fit, also on an object that was fitted before on '
+               'arrays of another shape (the property does not restrict it to fresh objects); position-wise access is read as '
+               'bg.models, bg[i] (bg[i][j]), len(bg) and iteration, compared by value',
+               'the multiprocessing runtime is exercised only under the injected schedules; the theorem covers all permutations '
                'of completion order for the reorder-buffer model of Pool.imap',
                'the progress wrapper is exercised with a stand-in tqdm (iterates the wrapped iterable unchanged, as tqdm does); '
                'the real tqdm package is outside the check']
@@ -32,7 +41,7 @@ def _mode(c):
     return 'list' if c.get('kw') is not None else 'dict'
 
 
-def _case(rng, rows, kwmode, via=None):
+def _case(rng, rows, kwmode, via=None, refit=False):
     kw = rng.sample(range(len(gl.KW_POOL)), rows) if kwmode == 'list' else None
     if via is None:
         via = 'func' if kwmode == 'list' else rng.choice(['func', 'func', 'group'])
@@ -43,7 +52,8 @@ def _case(rng, rows, kwmode, via=None):
               for _ in range(n_entries)]
     if via == 'group':
         rs_key = [None] * n_entries
-    return {'kind': 'g2d/' + kwmode, 'rows': rows, 'sig_ids': rng.sample(range(40), rows), 'kwmode': kwmode,
+    history = gl.gen_decoys(rng, (rows,)) if via == 'group' and (refit or rng.random() < 0.6) else []
+    return {'kind': 'g2d/' + kwmode, 'rows': rows, 'history': history, 'kseed': rng.randrange(10 ** 6), 'sig_ids': rng.sample(range(40), rows), 'kwmode': kwmode,
             'kw': kw, 'shared': rng.randrange(len(gl.KW_POOL)), 'rs_key': rs_key,
             'omit_arg': kwmode == 'none' and rng.random() < 0.5,
             'n_jobs': rng.choice([1, 2, 3, 4, max(1, rows - 1), max(1, rows - 2), rows, rows + 3, -1]),
@@ -54,7 +64,7 @@ def _case(rng, rows, kwmode, via=None):
 
 def cases(rng, tier):
     out = []
-    n = 64 if tier == 'quick' else 520
+    n = 68 if tier == 'quick' else 520
     for _ in range(n):
         rows = rng.choice([2, 3, 4, 5, 5, 6, 7])
         r = rng.random()
@@ -63,7 +73,17 @@ def cases(rng, tier):
     for rep in range(1 if tier == 'quick' else 6):
         for kwmode, via in (('none', 'func'), ('dict', 'func'), ('list', 'func'), ('dict', 'group'), ('none', 'group')):
             out.append(_case(rng, 1, kwmode, via))
+    # one object fitted several times: decoy arrays of another shape first, then the judged array
+    for rep in range(8 if tier == 'quick' else 48):
+        c = _case(rng, rng.choice([1, 3, 3, 4, 5, 6, 7]), 'dict' if rng.random() < 0.75 else 'none', 'group', refit=True)
+        if c['schedule'] == 'none' and rep % 4:
+            c['schedule'] = ['reverse', 'first_slow', 'zigzag'][rep % 3]
+        out.append(c)
     return out
+
+
+def stream_of(c):
+    return 'object' if c.get('via') == 'group' and _mode(c) != 'list' else 'func'
 
 
 def run_impl(c):
@@ -75,16 +95,17 @@ def run_impl(c):
     if c['via'] == 'group' and mode == 'list':
         c = dict(c, via='func')
     rs_key = c.get('rs_key') or []
+    krng = gl.key_rng(c)
     if mode == 'list':
-        kwobj = [gl.option_set(a, rs_key[i] if i < len(rs_key) else None) for i, a in enumerate(c['kw'])]
+        kwobj = [gl.option_set(a, rs_key[i] if i < len(rs_key) else None, krng) for i, a in enumerate(c['kw'])]
     elif mode == 'dict':
-        kwobj = gl.option_set(c['shared'], rs_key[0] if rs_key else None)
+        kwobj = gl.option_set(c['shared'], rs_key[0] if rs_key else None, krng)
     else:
         kwobj = None
-    stub = gl.ProgressStub().install() if c['progress'] else None
-    orig = gl.install_delays([s for s in sigs], c['schedule'])
     out = {}
     err = None
+    bg = None
+    stub = orig = None
     try:
         with contextlib.redirect_stdout(io.StringIO()):
             if c['via'] == 'group':
@@ -94,12 +115,14 @@ def run_impl(c):
                 else:
                     kw = gl.KW_POOL[c['shared']]
                     bg = BycycleGroup(center_extrema=kw['center_extrema'], burst_method=kw.get('burst_method', 'cycles'),
-                                      thresholds=dict(kw['threshold_kwargs']), find_extrema_kwargs=kw.get('find_extrema_kwargs'),
-                                      return_samples=c['return_samples'])
+                                      thresholds=gl.shuffled(krng, kw['threshold_kwargs']),
+                                      find_extrema_kwargs=kw.get('find_extrema_kwargs'), return_samples=c['return_samples'])
+                gl.run_decoys(bg, c.get('history'))           # earlier fits of the SAME object on arrays of another shape
+            stub = gl.ProgressStub().install() if c['progress'] else None
+            orig = gl.install_delays([s for s in sigs], c['schedule'])
+            if c['via'] == 'group':
                 bg.fit(sigs, gl.FS, gl.FR, axis=0, n_jobs=c['n_jobs'], progress=c['progress'])
                 dfs = bg.df_features
-                out['models_ok'] = bool(len(bg.models) == len(sigs) and all(
-                    bg.models[i].df_features is dfs[i] and np.array_equal(bg.models[i].sig, sigs[i]) for i in range(len(sigs))))
             elif mode == 'none' and c.get('omit_arg'):
                 dfs = compute_features_2d(sigs, gl.FS, gl.FR, axis=0,
                                           return_samples=c['return_samples'], n_jobs=c['n_jobs'], progress=c['progress'])
@@ -109,7 +132,7 @@ def run_impl(c):
     except Exception as e:
         err = {'err': exc_kind(e), 'msg': str(e)[:200]}
     finally:
-        observed = gl.uninstall(orig, c['schedule'])
+        observed = gl.uninstall(orig, c['schedule']) if orig is not None or gl._LOG[0] is not None else None
         pbar = stub.uninstall() if stub is not None else None
     if pbar is not None:
         out['pbar'] = pbar
@@ -146,6 +169,8 @@ def run_impl(c):
         placement.append(gl.match(df, cands, prefer) if hasattr(df, 'columns') else [gl.MISSING] * 3)
     out['placement'] = [placement]
     out['n'] = len(dfs)
+    if bg is not None:
+        out['object'] = gl.observe_object(bg, sigs, cands, [(_want_id(c, i), i, 0) for i in range(len(sigs))])
     return out
 
 
@@ -166,8 +191,11 @@ def oracle(c, o):
         if t != want:
             return 'position %d holds the analysis (options, row) = %s, expected %s%s' % (
                 i, t[:2], want[:2], ' [progress=%s]' % c['progress'] if c.get('progress') else '')
-    if o.get('models_ok') is False:
-        return 'BycycleGroup.models do not mirror df_features / sigs position by position'
+    if 'object' in o:
+        p = gl.object_problem(o['object'], (c['rows'],), [[_want_id(c, i), i, 0] for i in range(c['rows'])])
+        if p:
+            return 'BycycleGroup.fit%s: %s' % (' after %d earlier fit(s) of the same object on arrays of another shape'
+                                                % len(c['history']) if c.get('history') else '', p)
     return None
 
 
@@ -177,7 +205,9 @@ def nontrivial(c, o):
 
 def kind_of(c, o):
     jobs = 'gt' if c['n_jobs'] > c['rows'] else ('all' if c['n_jobs'] == -1 else c['n_jobs'])
-    return 'g2d/%s/%s/jobs%s%s' % (_mode(c), c['schedule'], jobs, '/1row' if c['rows'] == 1 else '')
+    return 'g2d/%s/%s/jobs%s%s%s' % (_mode(c), c['schedule'], jobs, '/1row' if c['rows'] == 1 else '',
+                                     '/object-refit%d' % len(c['history']) if c.get('history') else
+                                     '/object' if c.get('via') == 'group' and _mode(c) != 'list' else '')
 
 
 def extra_evidence():
@@ -192,4 +222,9 @@ def coq_case(c, o):
         mode = 'dict'
     inp = '(G2 %s %s %d%%nat)' % (gl.nat_list(gl.sigma_for(c['schedule'], c['rows'], o.get('completion'))),
                                   gl.kw_term(mode, c['kw']), c['rows'])
+    if stream_of(c) == 'object':
+        if 'object' not in o:
+            return None
+        hist = [gl.decoy_term(d) for d in c.get('history') or []] + [inp]
+        return gl.coqio.lst(hist), '(%s, %s)' % (gl.coq_triples(o['placement']), gl.coq_models(o['object']['models']))
     return inp, gl.coq_triples(o['placement'])
